@@ -179,121 +179,145 @@ package ast
 
 //@ func WrapIdentifier
 //@ props C05
+//@ modifies nothing
 //@ requires node != nil
 //@ ensures result != nil && fresh(result) && result.NodeType == TypeIdentifier && result.elem == any(node)
 
 //@ func WrapStringLiteral
 //@ props C05
+//@ modifies nothing
 //@ requires node != nil
 //@ ensures result != nil && fresh(result) && result.NodeType == TypeStringLiteral && result.elem == any(node)
 
 //@ func WrapIntegerLiteral
 //@ props C05
+//@ modifies nothing
 //@ requires node != nil
 //@ ensures result != nil && fresh(result) && result.NodeType == TypeIntegerLiteral && result.elem == any(node)
 
 //@ func WrapFloatLiteral
 //@ props C05
+//@ modifies nothing
 //@ requires node != nil
 //@ ensures result != nil && fresh(result) && result.NodeType == TypeFloatLiteral && result.elem == any(node)
 
 //@ func WrapBoolLiteral
 //@ props C05
+//@ modifies nothing
 //@ requires node != nil
 //@ ensures result != nil && fresh(result) && result.NodeType == TypeBoolLiteral && result.elem == any(node)
 
 //@ func WrapNilLiteral
 //@ props C05
+//@ modifies nothing
 //@ requires node != nil
 //@ ensures result != nil && fresh(result) && result.NodeType == TypeNilLiteral && result.elem == any(node)
 
 //@ func WrapListInitExpr
 //@ props C05
+//@ modifies nothing
 //@ requires node != nil
 //@ ensures result != nil && fresh(result) && result.NodeType == TypeListLiteral && result.elem == any(node)
 
 //@ func WrapMapLiteral
 //@ props C05
+//@ modifies nothing
 //@ requires node != nil
 //@ ensures result != nil && fresh(result) && result.NodeType == TypeMapLiteral && result.elem == any(node)
 
 //@ func WrapParenExpr
 //@ props C05
+//@ modifies nothing
 //@ requires node != nil
 //@ ensures result != nil && fresh(result) && result.NodeType == TypeParenExpr && result.elem == any(node)
 
 //@ func WrapAttrExpr
 //@ props C05
+//@ modifies nothing
 //@ requires node != nil
 //@ ensures result != nil && fresh(result) && result.NodeType == TypeAttrExpr && result.elem == any(node)
 
 //@ func WrapIndexExpr
 //@ props C05
+//@ modifies nothing
 //@ requires node != nil
 //@ ensures result != nil && fresh(result) && result.NodeType == TypeIndexExpr && result.elem == any(node)
 
 //@ func WrapArithmeticExpr
 //@ props C05
+//@ modifies nothing
 //@ requires node != nil
 //@ ensures result != nil && fresh(result) && result.NodeType == TypeArithmeticExpr && result.elem == any(node)
 
 //@ func WrapConditionExpr
 //@ props C05
+//@ modifies nothing
 //@ requires node != nil
 //@ ensures result != nil && fresh(result) && result.NodeType == TypeConditionalExpr && result.elem == any(node)
 
 //@ func WrapInExpr
 //@ props C05
+//@ modifies nothing
 //@ requires node != nil
 //@ ensures result != nil && fresh(result) && result.NodeType == TypeInExpr && result.elem == any(node)
 
 //@ func WrapUnaryExpr
 //@ props C05
+//@ modifies nothing
 //@ requires node != nil
 //@ ensures result != nil && fresh(result) && result.NodeType == TypeUnaryExpr && result.elem == any(node)
 
 //@ func WrapAssignmentStmt
 //@ props C05
+//@ modifies nothing
 //@ requires node != nil
 //@ ensures result != nil && fresh(result) && result.NodeType == TypeAssignmentExpr && result.elem == any(node)
 
 //@ func WrapCallExpr
 //@ props C05
+//@ modifies nothing
 //@ requires node != nil
 //@ ensures result != nil && fresh(result) && result.NodeType == TypeCallExpr && result.elem == any(node)
 
 //@ func WrapSliceExpr
 //@ props C05
+//@ modifies nothing
 //@ requires node != nil
 //@ ensures result != nil && fresh(result) && result.NodeType == TypeSliceExpr && result.elem == any(node)
 
 //@ func WrapIfelseStmt
 //@ props C05
+//@ modifies nothing
 //@ requires node != nil
 //@ ensures result != nil && fresh(result) && result.NodeType == TypeIfelseStmt && result.elem == any(node)
 
 //@ func WrapForStmt
 //@ props C05
+//@ modifies nothing
 //@ requires node != nil
 //@ ensures result != nil && fresh(result) && result.NodeType == TypeForStmt && result.elem == any(node)
 
 //@ func WrapForInStmt
 //@ props C05
+//@ modifies nothing
 //@ requires node != nil
 //@ ensures result != nil && fresh(result) && result.NodeType == TypeForInStmt && result.elem == any(node)
 
 //@ func WrapContinueStmt
 //@ props C05
+//@ modifies nothing
 //@ requires node != nil
 //@ ensures result != nil && fresh(result) && result.NodeType == TypeContinueStmt && result.elem == any(node)
 
 //@ func WrapBreakStmt
 //@ props C05
+//@ modifies nothing
 //@ requires node != nil
 //@ ensures result != nil && fresh(result) && result.NodeType == TypeBreakStmt && result.elem == any(node)
 
 //@ func WrapeBlockStmt
 //@ props C05
+//@ modifies nothing
 //@ requires node != nil
 //@ ensures result != nil && fresh(result) && result.NodeType == TypeBlockStmt && result.elem == any(node)
 
